@@ -87,7 +87,7 @@ pub fn hist_cfg(property: &str, variant: &str) -> Option<HistCfg> {
             c.reuse = 96;
         }
         ("C11", "hist") => {
-            c.w = [60, 0, 0, 8, 3, 6, 4, 8, 5];
+            c.w = [60, 3, 5, 8, 3, 6, 4, 8, 5];
             c.gp = Gp::small();
             c.reuse = 160;
             c.storage = true;
